@@ -1,5 +1,6 @@
 import Driver.Util
 import Driver.C20
+import Driver.V2
 /-
 lcdriver: reads one record per line on stdin, `<stage>\t<id>\t<fields…>`,
 runs the model's executable definitions, prints `<id>\t<result>`.
@@ -12,6 +13,7 @@ def handle (line : String) : String :=
   | "sets" :: id :: en :: ops :: _ =>
     let e : LC.Sets.Enum Nat := if en = "rev" then LC.Sets.Enum.rev else LC.Sets.Enum.id
     id ++ "\t" ++ C20.runSets e 4 (if ops.isEmpty then [] else ops.splitOn ",")
+  | "tok" :: id :: n :: hx :: _ => id ++ "\t" ++ V2.runTok (n == "1") (unhex hx)
   | _ :: id :: _ => id ++ "\tBADSTAGE"
   | _ => "?\tBADLINE"
 
